@@ -95,7 +95,7 @@ def filler_items(rng, kind, budget):
 
 
 def build_sweep(case, gap):
-    rng = random.Random('c03-sweep-%r' % (sorted(case.items()),))
+    rng = random.Random('c03-sweep-%r' % (sorted((k, v) for k, v in case.items() if k in ('x', 'dir', 'D', 'filler', 'compress', 'pre')),))
     x = tuple(case['x'])
     D = case['D']
     X = xfer_item(x, 'T')
@@ -218,9 +218,55 @@ def classify_item(it, info, rcase):
 CFG = dict(w_xfer=30, w_inst=22, w_li=10, w_pseudo=6, w_align=8, w_gap=4, w_labimm=3, w_data=6, labels=(2, 7), n=(3, 60))
 
 
+def far_family(rng):
+    """several far (> 1 MiB) call / tail expansions early in the program, then shrinking pseudo-instructions each immediately
+    followed by a label that later transfers target: the running position of the expansion pass has to stay exact across
+    every two-instruction expansion"""
+    items = [{'k': 'label', 'name': 'L0'}, {'k': 'pseudo', 'm': 'nop', 'ops': []}]
+    nl = 1
+    labels = ['L0']
+    for _ in range(rng.randint(1, 5)):
+        items.append({'k': 'pseudo', 'm': rng.choice(['call', 'call', 'tail']), 'ops': [{'t': 'FAR'}]})
+        if rng.random() < 0.4:
+            items.append(randprog.plain_inst(rng, 0.7))
+    for _ in range(rng.randint(2, 8)):
+        c = rng.random()
+        if c < 0.4:
+            items.append({'k': 'pseudo', 'm': 'li', 'ops': [randprog.R(rng), {'i': rng.choice([0, 5, 31, -32, 2047, -2048, 0x12345])}]})
+        elif c < 0.7:
+            items.append({'k': 'pseudo', 'm': rng.choice(['call', 'tail']), 'ops': [{'t': rng.choice(labels)}]})
+        elif c < 0.85:
+            items.append({'k': 'pseudo', 'm': rng.choice(['call', 'tail']), 'ops': [{'t': 'FAR'}]})
+        else:
+            items.append(randprog.plain_inst(rng, 0.8))
+        if rng.random() < 0.7:
+            name = 'L%d' % nl
+            nl += 1
+            labels.append(name)
+            items.append({'k': 'label', 'name': name})
+    for _ in range(rng.randint(2, 6)):
+        L = rng.choice(labels)
+        k = rng.randrange(5)
+        if k == 0:
+            items.append({'k': 'pseudo', 'm': 'j', 'ops': [{'t': L}]})
+        elif k == 1:
+            items.append({'k': 'pseudo', 'm': rng.choice(randprog.PBRANCH1), 'ops': [randprog.Rc(rng), {'t': L}]})
+        elif k == 2:
+            items.append({'k': 'inst', 'm': rng.choice(randprog.BRANCHES), 'ops': [randprog.R(rng), randprog.R(rng), {'t': L}]})
+        elif k == 3:
+            items.append({'k': 'pseudo', 'm': 'call', 'ops': [{'t': L}]})
+        else:
+            items.append({'k': 'inst', 'm': 'jal', 'ops': [{'r': rng.choice([0, 1])}, {'t': L}]})
+    items.append({'k': 'gap', 'n': rng.choice([1 << 20, (1 << 20) + 4096, (1 << 20) + 2 * rng.randrange(0, 3000)])})
+    items += [{'k': 'label', 'name': 'FAR'}, {'k': 'pseudo', 'm': 'ret', 'ops': []}]
+    if rng.random() < 0.5:
+        items += [{'k': 'pseudo', 'm': 'call', 'ops': [{'t': rng.choice(labels)}]}, {'k': 'pseudo', 'm': 'tail', 'ops': [{'t': 'L0'}]}]
+    return items
+
+
 def run_random(asm, acc, seed, idx, trace=False):
     rng = random.Random('c03-rand-%d-%d' % (seed, idx))
-    items = randprog.gen(rng, CFG)
+    items = far_family(rng) if idx % 8 == 5 else randprog.gen(rng, CFG)
     for compress in (False, True):
         acc['n'] += 1
         rcase = {'kind': 'rand', 'seed': seed, 'idx': idx, 'compress': compress}
@@ -253,7 +299,7 @@ def run_random(asm, acc, seed, idx, trace=False):
 def cli_labels(asm, acc, seed, idx):
     """the -l file of a CLI run must list exactly the blob-stream offsets"""
     rng = random.Random('c03-rand-%d-%d' % (seed, idx))
-    items = randprog.gen(rng, CFG)
+    items = far_family(rng) if idx % 8 == 5 else randprog.gen(rng, CFG)
     compress = bool(idx & 1)
     ex = progcheck.examine(asm, items, compress, judge=False)
     if not ex.ok or ex.labels_true is None:
